@@ -1,7 +1,15 @@
 import NetVerif.Model.H2Client
-/-! # C17 — HTTP/2 client stream limits and stream-ID order (first theorem; grown below) -/
+/-!
+# C17 — HTTP/2 client: stream limits and stream-ID order
+
+Part 1: theorems about the mechanism model (`CC`) for all histories of mechanism steps.
+Part 2: soundness of the trace monitor: every trace `accepts` lets through satisfies the
+wire-level property (`WireProp`) and its readable corollaries.
+-/
 namespace NetVerif.Proofs.C17
 open NetVerif.Model.H2Client
+
+/-! ## Part 1: mechanism -/
 
 /-- `awaitOpenSlotForStreamLocked` lets a request through only below the limit. -/
 theorem await_go_below_limit (c : CC) (h : c.await = .go) : c.count < c.maxConc := by
@@ -13,5 +21,356 @@ theorem await_go_below_limit (c : CC) (h : c.await = .go) : c.count < c.maxConc 
     · split at h
       · assumption
       · cases h
+
+/-- ... and only on a connection that is not closed. -/
+theorem await_go_not_closed (c : CC) (h : c.await = .go) : c.closed = false := by
+  unfold CC.await at h
+  split at h
+  · cases h
+  · split at h
+    · cases h
+    · rename_i h2
+      cases hc : c.closed
+      · rfl
+      · simp [hc] at h2
+
+/-- Steps of the mechanism (every way the Go code changes the counters). -/
+inductive Act where
+  | reserve                      -- ClientConn.ReserveNewRequest (pool)
+  | enter                        -- writeRequest: decrStreamReservationsLocked
+  | release                      -- cleanupWriteRequest with cs.ID == 0
+  | openStream                   -- awaitOpenSlotForStreamLocked returns nil; addStreamLocked
+  | forget (id : Nat)            -- forgetStreamID
+  | cancelReset (id : Nat)       -- cleanupWriteRequest's RST_STREAM(CANCEL) path, then forgetStreamID
+  | settings (m : Option Nat)    -- processSettingsNoWrite
+  | pingAck                      -- processPing (ack)
+  | frameRead (hd : Bool)        -- streamByID
+  | goAway (last code : Nat)     -- setGoAway
+  | close                        -- closeForError / read loop cleanup / closeIfIdle
+  | doNotReuse
+deriving Repr, DecidableEq
+
+/-- `none`: the step is not enabled (only `openStream` has a guard: it blocks or fails). -/
+def step (c : CC) : Act → Option CC
+  | .reserve => some c.reserve.2
+  | .enter => some c.decrReservation
+  | .release => some c.decrReservation
+  | .openStream => if c.await = .go then some c.addStream else none
+  | .forget id => some (c.forget id)
+  | .cancelReset id => some ((c.noteCancelReset id).1.forget id)
+  | .settings m => some (c.settings m)
+  | .pingAck => some c.pingAck
+  | .frameRead hd => some (c.frameRead hd)
+  | .goAway l code => some (c.setGoAway l code).1
+  | .close => some { c with closed := true }
+  | .doNotReuse => some { c with doNotReuse := true }
+
+/-- Run a history; the second component logs the stream IDs opened, oldest first. -/
+def run (c : CC) : List Act → Option (CC × List Nat)
+  | [] => some (c, [])
+  | a :: as =>
+    match step c a with
+    | none => none
+    | some c' =>
+      match run c' as with
+      | none => none
+      | some (c'', log) => some (c'', if a = .openStream then c.nextID :: log else log)
+
+theorem step_nextID (c c' : CC) (a : Act) (h : step c a = some c') :
+    c'.nextID = if a = .openStream then c.nextID + 2 else c.nextID := by
+  cases a <;> simp [step] at h ⊢
+  case reserve => subst h; unfold CC.reserve; split <;> rfl
+  case enter => subst h; rfl
+  case release => subst h; rfl
+  case openStream => obtain ⟨_, h⟩ := h; subst h; rfl
+  case forget => subst h; rfl
+  case cancelReset id => subst h; unfold CC.noteCancelReset CC.forget; split <;> rfl
+  case settings m =>
+    subst h; unfold CC.settings
+    cases m with
+    | none => simp only; split <;> rfl
+    | some v => rfl
+  case pingAck => subst h; unfold CC.pingAck; split <;> rfl
+  case frameRead => subst h; rfl
+  case goAway => subst h; rfl
+  case close => subst h; rfl
+  case doNotReuse => subst h; rfl
+
+/-- Every ID in the log is at least the `nextStreamID` at the start, has its parity, and the log
+is strictly increasing. -/
+theorem run_log (c : CC) (acts : List Act) (c' : CC) (log : List Nat)
+    (h : run c acts = some (c', log)) :
+    log.Pairwise (· < ·) ∧ (∀ id ∈ log, c.nextID ≤ id ∧ id % 2 = c.nextID % 2) := by
+  induction acts generalizing c c' log with
+  | nil => simp [run] at h; obtain ⟨_, rfl⟩ := h; simp
+  | cons a as ih =>
+    simp only [run] at h
+    split at h
+    · cases h
+    · rename_i c1 hs
+      split at h
+      · cases h
+      · rename_i c2 log2 hr
+        have hn := step_nextID c c1 a hs
+        have ⟨hp, hall⟩ := ih c1 c2 log2 hr
+        simp only [Option.some.injEq, Prod.mk.injEq] at h
+        obtain ⟨_, rfl⟩ := h
+        by_cases ha : a = .openStream
+        · simp only [ha, if_true] at hn ⊢
+          refine ⟨List.pairwise_cons.mpr ⟨?_, hp⟩, ?_⟩
+          · intro x hx
+            have := (hall x hx).1
+            omega
+          · intro id hid
+            rcases List.mem_cons.mp hid with rfl | hid
+            · exact ⟨Nat.le_refl _, rfl⟩
+            · have := hall id hid
+              omega
+        · simp only [ha, if_false] at hn ⊢
+          refine ⟨hp, ?_⟩
+          intro id hid
+          have := hall id hid
+          rw [hn] at this
+          exact this
+
+/-- C17, first clause, for all histories of a fresh connection: the IDs the client assigns are
+odd and strictly increasing. -/
+theorem ids_odd_increasing (strict : Bool) (acts : List Act) (c' : CC) (log : List Nat)
+    (h : run { strict := strict } acts = some (c', log)) :
+    log.Pairwise (· < ·) ∧ ∀ id ∈ log, id % 2 = 1 := by
+  have ⟨hp, hall⟩ := run_log _ acts c' log h
+  exact ⟨hp, fun id hid => (hall id hid).2⟩
+
+/-- C17, strict clause on the mechanism: whenever a stream is opened, the streams the client
+tracks (which include every stream open on the wire), the reservations and the unconfirmed
+resets stay within the limit afterwards; in particular open streams ≤ limit. -/
+theorem open_within_limit (c c' : CC) (h : step c .openStream = some c') :
+    c.count < c.maxConc ∧ c'.count ≤ c'.maxConc ∧ c'.streams.length ≤ c'.maxConc := by
+  simp only [step] at h
+  split at h
+  · rename_i hgo
+    have hlt := await_go_below_limit c hgo
+    simp only [Option.some.injEq] at h
+    subst h
+    simp only [CC.count, CC.addStream, List.length_cons] at hlt ⊢
+    omega
+  · cases h
+
+/-- Limit lowered below (or to) the current count: no new stream can be opened until the count
+has dropped below the limit — in every state, hence along every history. -/
+theorem at_limit_blocks (c : CC) (h : c.maxConc ≤ c.count) : step c .openStream = none := by
+  simp only [step]
+  split
+  · rename_i hgo
+    have := await_go_below_limit c hgo
+    omega
+  · rfl
+
+theorem lowered_limit_blocks (c : CC) (m : Nat) (h : m ≤ c.count) :
+    step (c.settings (some m)) .openStream = none := by
+  apply at_limit_blocks
+  simpa [CC.settings, CC.count] using h
+
+/-- C17, non-strict clause on the mechanism: `ReserveNewRequest` (what the pool calls) refuses a
+connection at its limit. The only exception in the code is a closed connection that was never
+used (it takes one request, which fails without opening a stream: `closed_never_opens`). -/
+theorem nonstrict_reserve_below_limit (c : CC) (hs : c.strict = false) (h : c.reserve.1 = true) :
+    c.count < c.maxConc ∨ (c.nextID = 1 ∧ c.reserved = 0 ∧ c.closed = true ∧ c.closedOnIdle = false) := by
+  unfold CC.reserve at h
+  split at h
+  · rename_i hc
+    unfold CC.idleCanTake at hc
+    split at hc
+    · cases hc
+    · simp only [hs] at hc
+      split at hc
+      · rename_i hex
+        right
+        simp at hex
+        exact ⟨hex.1.1.1, hex.1.1.2, hex.1.2, hex.2⟩
+      · left
+        simp at hc
+        exact hc.1
+  · cases h
+
+theorem closed_never_opens (c : CC) (h : c.closed = true) : step c .openStream = none := by
+  simp only [step]
+  split
+  · rename_i hgo
+    have := await_go_not_closed c hgo
+    simp [h] at this
+  · rfl
+
+/-- Strict mode: the pool is always told yes on a usable connection (requests then wait in
+`awaitOpenSlotForStreamLocked`). -/
+theorem strict_reserve_ignores_limit (c : CC) (hs : c.strict = true) (hu : c.isUsable = true)
+    (hsu : c.singleUse = false) : c.reserve.1 = true := by
+  unfold CC.reserve CC.idleCanTake
+  simp [hs, hu, hsu]
+
+/-- Observation (liveness, outside the statement of C17): in strict mode the reservations of the
+requests queued behind the head waiter count against the limit, so with limit 1, one finished
+stream and two queued requests the head waiter is never let through although no stream is open.
+Reproduced on the real Transport (see the report). -/
+theorem strict_queue_stall :
+    ∃ c log, run { strict := true }
+        [.settings (some 1), .reserve, .enter, .openStream, .reserve, .enter, .reserve, .forget 1]
+        = some (c, log) ∧ c.streams = [] ∧ c.closed = false ∧ c.await = .wait := by
+  refine ⟨_, _, rfl, ?_, ?_, ?_⟩ <;> decide
+
+/-! Non-vacuity -/
+example : step ({ maxConc := 1 } : CC) .openStream = some { maxConc := 1, streams := [1], nextID := 3 } := by decide
+example : step ({ maxConc := 1, streams := [1], nextID := 3 } : CC) .openStream = none := by decide
+example : ({ maxConc := 1, streams := [1], nextID := 3 } : CC).reserve.1 = false := by decide
+example : ({ maxConc := 1, streams := [1], nextID := 3, strict := true } : CC).reserve.1 = true := by decide
+
+/-! ## Part 2: the trace monitor -/
+
+/-- The wire-level property of a whole trace: every event passes `wireCheck` in the wire state
+reached by the events before it. -/
+def WireProp (strict : Bool) (tr : List Ev) : Prop :=
+  ∀ pre e post, tr = pre ++ e :: post → wireCheck strict (fun c => wireState c pre) e = true
+
+theorem ev_ok {m m' : Mon} {e : Ev} (h : m.ev e = .ok m') :
+    wireCheck m.strict m.w e = true ∧ m'.strict = m.strict ∧ m'.w = fun c => (m.w c).upd c e := by
+  unfold Mon.ev at h
+  split at h
+  · cases h
+  · rename_i hc
+    split at h
+    · cases h
+    · cases h
+      simp at hc
+      exact ⟨hc, rfl, rfl⟩
+
+theorem run_ok (m m' : Mon) (tr : List Ev) (h : m.run tr = .ok m') :
+    ∀ pre e post, tr = pre ++ e :: post →
+      wireCheck m.strict (fun c => pre.foldl (fun w e => w.upd c e) (m.w c)) e = true := by
+  induction tr generalizing m with
+  | nil => intro pre e post hp; simp at hp
+  | cons a as ih =>
+    simp only [Mon.run] at h
+    split at h
+    · cases h
+    · rename_i m1 h1
+      have ⟨hc, hs, hw⟩ := ev_ok h1
+      intro pre e post hp
+      cases pre with
+      | nil =>
+        simp at hp
+        obtain ⟨rfl, _⟩ := hp
+        simpa using hc
+      | cons p ps =>
+        simp at hp
+        obtain ⟨rfl, rfl⟩ := hp
+        have := ih m1 h ps e post rfl
+        rw [hs, hw] at this
+        simpa [List.foldl_cons] using this
+
+/-- Soundness: an accepted trace satisfies the wire-level property. -/
+theorem accepted_wireProp (strict : Bool) (tr : List Ev) (h : accepts strict tr = true) :
+    WireProp strict tr := by
+  unfold accepts at h
+  split at h
+  · rename_i m' hr
+    intro pre e post hp
+    have := run_ok (Mon.init strict) m' tr hr pre e post hp
+    simpa [Mon.init, wireState] using this
+  · cases h
+
+/-- Accepted traces: stream IDs are odd. -/
+theorem accepted_ids_odd (strict : Bool) (tr pre post : List Ev) (c id r : Nat) (es : Bool)
+    (h : accepts strict tr = true) (hp : tr = pre ++ .hdr c id r es :: post) : id % 2 = 1 := by
+  have := accepted_wireProp strict tr h pre _ post hp
+  simp [wireCheck] at this
+  exact this.1.1.1
+
+theorem upd_lastID_mono (w : WConn) (c : Nat) (e : Ev)
+    (h : ∀ id r es, e = .hdr c id r es → w.lastID < id) : w.lastID ≤ (w.upd c e).lastID := by
+  cases e <;> simp only [WConn.upd] <;> (try split) <;> simp_all
+  case hdr.isTrue c' id r es hc =>
+    have := h
+    omega
+
+/-- `lastID` never decreases along a trace whose HEADERS all pass the check. -/
+theorem lastID_mono (c : Nat) (w : WConn) (tr : List Ev)
+    (h : ∀ pre e post, tr = pre ++ e :: post → ∀ id r es, e = .hdr c id r es →
+      (pre.foldl (fun w e => w.upd c e) w).lastID < id) :
+    w.lastID ≤ (tr.foldl (fun w e => w.upd c e) w).lastID := by
+  induction tr generalizing w with
+  | nil => simp
+  | cons a as ih =>
+    simp only [List.foldl_cons]
+    have h0 := upd_lastID_mono w c a (fun id r es he => by
+      have := h [] a as rfl id r es he
+      simpa using this)
+    have h1 := ih (w.upd c a) (fun pre e post hp id r es he => by
+      have := h (a :: pre) e post (by simp [hp]) id r es he
+      simpa using this)
+    omega
+
+/-- Accepted traces: stream IDs on one connection are strictly increasing. -/
+theorem accepted_ids_increasing (strict : Bool) (tr pre mid post : List Ev) (c id r id' r' : Nat)
+    (es es' : Bool) (h : accepts strict tr = true)
+    (hp : tr = pre ++ .hdr c id r es :: (mid ++ .hdr c id' r' es' :: post)) : id < id' := by
+  have hw := accepted_wireProp strict tr h
+  -- the second HEADERS is checked against the state after pre ++ hdr :: mid
+  have h2 := hw (pre ++ .hdr c id r es :: mid) (.hdr c id' r' es') post (by simp [hp])
+  simp only [wireCheck, Bool.and_eq_true, decide_eq_true_eq] at h2
+  have hlt := h2.1.1.2
+  -- lastID after `pre ++ [hdr]` is id, and it does not decrease over `mid`
+  have hsplit : wireState c (pre ++ .hdr c id r es :: mid)
+      = mid.foldl (fun w e => w.upd c e) ((wireState c pre).upd c (.hdr c id r es)) := by
+    simp [wireState, List.foldl_append]
+  have hid : ((wireState c pre).upd c (.hdr c id r es)).lastID = id := by simp [WConn.upd]
+  have hmono := lastID_mono c ((wireState c pre).upd c (.hdr c id r es)) mid
+    (fun p e q hpq id2 r2 es2 he => by
+      have := hw (pre ++ .hdr c id r es :: p) e (q ++ .hdr c id' r' es' :: post)
+        (by simp [hp, hpq])
+      subst he
+      simp only [wireCheck, Bool.and_eq_true, decide_eq_true_eq] at this
+      have := this.1.1.2
+      simpa [wireState, List.foldl_append] using this)
+  rw [hsplit] at hlt
+  omega
+
+/-- Accepted strict-mode traces: at every HEADERS the number of streams open on the wire,
+including the new one, is within the limit of the last SETTINGS the client was given. -/
+theorem accepted_strict_limit (tr pre post : List Ev) (c id r : Nat) (es : Bool)
+    (h : accepts true tr = true) (hp : tr = pre ++ .hdr c id r es :: post) :
+    (wireState c pre).opn.length + 1 ≤ (wireState c pre).limit := by
+  have := accepted_wireProp true tr h pre _ post hp
+  simp [wireCheck] at this
+  exact this.1.2
+
+/-- Accepted strict-mode traces: once the limit is at or below the number of open streams
+(e.g. lowered by SETTINGS), the next event on that connection is not a new stream. -/
+theorem accepted_lowered_limit_no_new_stream (tr pre post : List Ev) (c : Nat) (e : Ev)
+    (h : accepts true tr = true) (hp : tr = pre ++ e :: post)
+    (hfull : (wireState c pre).limit ≤ (wireState c pre).opn.length) :
+    ∀ id r es, e ≠ .hdr c id r es := by
+  intro id r es he
+  subst he
+  have := accepted_strict_limit tr pre post c id r es h hp
+  omega
+
+/-- Accepted non-strict traces: the pool never hands out a connection whose open streams plus
+already assigned requests have reached its limit. -/
+theorem accepted_pool_below_limit (tr pre post : List Ev) (r c : Nat) (f : Bool)
+    (h : accepts false tr = true) (hp : tr = pre ++ .pick r c f :: post) :
+    (wireState c pre).opn.length + (wireState c pre).pend.length < (wireState c pre).limit := by
+  have := accepted_wireProp false tr h pre _ post hp
+  simp [wireCheck] at this
+  exact this.1
+
+/-! Non-vacuity: a trace that exercises the limit is accepted; opening past the limit and a
+pool selection at the limit are rejected. -/
+def demoOK : List Ev :=
+  [.pick 0 0 true, .hdr 0 1 0 true, .setMax 0 (some 1), .pick 1 0 false, .sresp 0 1 true, .hdr 0 3 1 true]
+
+example : accepts true demoOK = true := by decide
+example : accepts true [.pick 0 0 true, .hdr 0 1 0 true, .setMax 0 (some 1), .pick 1 0 false, .hdr 0 3 1 true] = false := by decide
+example : accepts false [.pick 0 0 true, .hdr 0 1 0 true, .setMax 0 (some 1), .pick 1 0 false] = false := by decide
+example : accepts false [.pick 0 0 true, .hdr 0 1 0 true, .pick 1 0 false, .hdr 0 1 1 true] = false := by decide
 
 end NetVerif.Proofs.C17
